@@ -173,6 +173,9 @@ pub fn run_all(run: &mut Run, rng: &mut Rng, thorough: bool) {
             }
         }
     }
+    // ---- challenge histories: allocate, then 401/438 challenges that keep or CHANGE the realm; after every step
+    // each request builder must produce a message that verifies under MD5(USERNAME : REALM-in-the-message : password)
+    challenge_histories(run, rng, &env, thorough);
     // ---- TURN over TCP: `TurnClient::send` frames every message with a 2-byte length (RFC 4571)
     tcp_framing(run, rng, &env, thorough);
     // ---- Allocate dialogue (401 challenge, then success) against a scripted reference-crate server
@@ -181,37 +184,157 @@ pub fn run_all(run: &mut Run, rng: &mut Rng, thorough: bool) {
     rx_cases(run, rng, &env, thorough);
 }
 
+/// RFC 5766 §2.1 / §11.5, RFC 5389 §7.2.2 reader of the client→server TCP byte stream, written from the RFC:
+/// no extra framing; a STUN message (first two bits 00) is 20 + length bytes; a ChannelData message (first two
+/// bits 01) is 4 + length bytes followed by padding to a multiple of four. Returns (message, bytes consumed).
+fn rfc_tcp_next(stream: &[u8]) -> Option<(Vec<u8>, usize)> {
+    if stream.len() < 4 { return None; }
+    let l = u16::from_be_bytes([stream[2], stream[3]]) as usize;
+    match stream[0] >> 6 {
+        0 => { if stream.len() < 20 + l { return None; } Some((stream[..20 + l].to_vec(), 20 + l)) }
+        1 => { let on_wire = 4 + l.div_ceil(4) * 4; if stream.len() < on_wire { return None; } Some((stream[..4 + l].to_vec(), on_wire)) }
+        _ => None,
+    }
+}
+
 fn tcp_framing(run: &mut Run, rng: &mut Rng, env: &Env, thorough: bool) {
-    use tokio::io::AsyncReadExt;
+    use tokio::io::{AsyncReadExt, AsyncWriteExt};
     let (client, mut server_side) = env.rt.block_on(async {
         let l = tokio::net::TcpListener::bind("127.0.0.1:0").await.unwrap();
         let c = tokio::net::TcpStream::connect(l.local_addr().unwrap()).await.unwrap();
         let (s, _) = l.accept().await.unwrap();
         (TurnClient::verif_new_tcp(c), s)
     });
+    // ---- client → server: what the client writes must be readable by the RFC stream reader
     for _ in 0..(if thorough { 2000 } else { 200 }) {
-        let dl = *rng.pick(&[0usize, 1, 3, 4, 100, 763, 1400]);
-        let data = rng.bytes(dl);
-        let ch = rng.range(0x4000, 0x7fff) as u16;
-        let peer = gen_addr(rng);
-        let use_chan = rng.chance(1, 2);
-        let framed = env.rt.block_on(async {
-            if use_chan { client.verif_send_channel_data(ch, &data).await.unwrap(); } else { client.verif_send_indication(peer, &data).await.unwrap(); }
-            let mut len = [0u8; 2];
-            tokio::time::timeout(Duration::from_secs(2), server_side.read_exact(&mut len)).await.ok()?.ok()?;
-            let mut b = vec![0u8; u16::from_be_bytes(len) as usize];
-            tokio::time::timeout(Duration::from_secs(2), server_side.read_exact(&mut b)).await.ok()?.ok()?;
-            let mut f = len.to_vec(); f.extend_from_slice(&b); Some(f)
+        let k = rng.range(1, 4) as usize;
+        let mut sent: Vec<(bool, u16, SocketAddr, Vec<u8>)> = vec![];
+        for _ in 0..k {
+            let dl = *rng.pick(&[0usize, 1, 2, 3, 4, 5, 100, 763, 1400]);
+            sent.push((rng.chance(1, 2), rng.range(0x4000, 0x7fff) as u16, gen_addr(rng), rng.bytes(dl)));
+        }
+        let stream = env.rt.block_on(async {
+            for (use_chan, ch, peer, data) in &sent {
+                if *use_chan { client.verif_send_channel_data(*ch, data).await.unwrap(); } else { client.verif_send_indication(*peer, data).await.unwrap(); }
+            }
+            // read until the RFC reader has seen all messages (or 3 s pass), then pick up any trailing bytes
+            let mut acc: Vec<u8> = vec![]; let mut buf = [0u8; 8192];
+            let complete = |acc: &[u8]| { let mut off = 0; let mut n = 0; while let Some((_, u)) = rfc_tcp_next(&acc[off..]) { off += u; n += 1; } n >= sent.len() };
+            let deadline = tokio::time::Instant::now() + Duration::from_secs(3);
+            while !complete(&acc) {
+                match tokio::time::timeout_at(deadline, server_side.read(&mut buf)).await { Ok(Ok(n)) if n > 0 => acc.extend_from_slice(&buf[..n]), _ => break }
+            }
+            while let Ok(n) = server_side.try_read(&mut buf) { if n == 0 { break; } acc.extend_from_slice(&buf[..n]); }
+            acc
         });
-        let Some(framed) = framed else { run.count("tcp_read_timeout"); continue };
-        run.case("tcpframe", &hex(&framed[2..]), &hex(&framed), true);
-        if use_chan {
-            let mut want = vec![(ch >> 8) as u8, ch as u8, (data.len() >> 8) as u8, data.len() as u8]; want.extend_from_slice(&data);
-            if framed[2..] != want[..] { run.fail("codec:turn:channel-data:tcp-frame", &format!("tcpframe {}", hex(&framed[2..])), &hex(&framed)); }
-        } else {
-            let tx: [u8; 12] = framed[10..22].try_into().unwrap();
-            let case = case_req(run, "sendind", &tx, None, Some(peer), 0, &data, &framed[2..]);
-            oracle_request(run, &case, "send-indication-tcp", &framed[2..], &tx, METHOD_SEND, CLASS_INDICATION, None, Some(peer), &[(ATTR_DATA, data.clone())]);
+        // model: the wire image of each message
+        let mut off = 0usize;
+        for (i, (use_chan, ch, peer, data)) in sent.iter().enumerate() {
+            let case = format!("tcpstream msg#{i} chan={use_chan} len={}", data.len());
+            let Some((msg, used)) = rfc_tcp_next(&stream[off..]) else {
+                run.fail(&format!("codec:turn:tcp-stream:not-self-delimiting:{}", if *use_chan { "channel-data" } else { "stun" }), &case, &hex(&stream[off..stream.len().min(off + 48)])); return };
+            run.case("tcpwire", &hex(&msg), &hex(&stream[off..off + used]), true);
+            if *use_chan {
+                let mut want = vec![(ch >> 8) as u8, *ch as u8, (data.len() >> 8) as u8, data.len() as u8]; want.extend_from_slice(data);
+                if msg != want { run.fail(&format!("codec:turn:tcp-stream:channel-data:len-mod4-{}", data.len() % 4), &case, &hex(&msg)); }
+                if stream[off + msg.len()..off + used].iter().any(|b| *b != 0) { run.count("tcp_channeldata_nonzero_padding"); }
+            } else {
+                let tx: [u8; 12] = match msg.get(8..20) { Some(t) => t.try_into().unwrap(), None => { run.fail("codec:turn:tcp-stream:short-stun", &case, &hex(&msg)); break } };
+                let c2 = case_req(run, "sendind", &tx, None, Some(*peer), 0, data, &msg);
+                oracle_request(run, &c2, "send-indication-tcp", &msg, &tx, METHOD_SEND, CLASS_INDICATION, None, Some(*peer), &[(ATTR_DATA, data.clone())]);
+            }
+            off += used;
+        }
+        if off != stream.len() && off > 0 { run.fail("codec:turn:tcp-stream:trailing-bytes", "tcpstream", &format!("{} of {}", off, stream.len())); }
+    }
+    // ---- server → client: `TurnClient::recv` must return each message of an RFC-framed stream
+    for _ in 0..(if thorough { 1000 } else { 100 }) {
+        let k = rng.range(1, 4) as usize;
+        let mut msgs: Vec<Vec<u8>> = vec![]; let mut wire = vec![];
+        for _ in 0..k {
+            if rng.chance(1, 2) {
+                let dl = *rng.pick(&[0usize, 1, 2, 3, 4, 7, 100, 1000]);
+                let data = rng.bytes(dl); let ch = rng.range(0x4000, 0x7fff) as u16;
+                let mut m = vec![(ch >> 8) as u8, ch as u8, (dl >> 8) as u8, dl as u8]; m.extend_from_slice(&data);
+                wire.extend_from_slice(&m); wire.extend(std::iter::repeat_n(0u8, (4 - dl % 4) % 4)); msgs.push(m);
+            } else {
+                let mut sp = super::msg::gen_ref_spec(rng); sp.attrs.retain(|a| !matches!(a, super::msg::A::Da(d) if d.len() > 900));
+                let m = sp.encode_reference(); wire.extend_from_slice(&m); msgs.push(m);
+            }
+        }
+        run.case("tcpsplit", &hex(&wire), &msgs.iter().map(|m| hex(m)).collect::<Vec<_>>().join(","), true);
+        let got: Vec<Option<Vec<u8>>> = env.rt.block_on(async {
+            server_side.write_all(&wire).await.unwrap();
+            let mut out = vec![];
+            for _ in 0..msgs.len() {
+                let mut buf = vec![0u8; 70000];
+                match tokio::time::timeout(Duration::from_millis(2000), client.verif_recv(&mut buf)).await { Ok(Ok(n)) => { buf.truncate(n); out.push(Some(buf)); } _ => { out.push(None); break } }
+            }
+            out
+        });
+        for (i, m) in msgs.iter().enumerate() {
+            if got.get(i).cloned().flatten().as_ref() != Some(m) {
+                run.fail(&format!("codec:turn:tcp-stream:recv:{}", if m[0] >> 6 == 1 { "channel-data" } else { "stun" }), &format!("tcpsplit {}", hex(&wire)), &format!("message #{i}: {:?}", got.get(i).map(|g| g.as_ref().map(|b| hex(b)))));
+                // the stream is out of sync now: start over with a fresh connection would be needed; stop this stream test
+                return;
+            }
+        }
+    }
+}
+
+/// MESSAGE-INTEGRITY of `bytes` under the long-term key derived (by the reference crate) from the USERNAME and
+/// REALM the message itself carries and the account's password
+fn verifies_under_own_realm(bytes: &[u8], password: &str) -> Result<(), String> {
+    let mut m = Message::new();
+    m.raw = bytes.to_vec();
+    m.decode().map_err(|e| e.to_string())?;
+    let user = String::from_utf8(m.get(ATTR_USERNAME).map_err(|e| e.to_string())?).map_err(|e| e.to_string())?;
+    let realm = String::from_utf8(m.get(ATTR_REALM).map_err(|e| e.to_string())?).map_err(|e| e.to_string())?;
+    MessageIntegrity::new_long_term_integrity(user, realm, password.to_string()).check(&mut m).map_err(|e| e.to_string())
+}
+
+fn challenge_histories(run: &mut Run, rng: &mut Rng, env: &Env, thorough: bool) {
+    let c = &env.client;
+    for round in 0..(if thorough { 400 } else { 40 }) {
+        let mut cr = Creds::make(rng);
+        let realm_a = cr.realm.clone();
+        let mk = |rng: &mut Rng, tag: &str| { let n = rng.range(0, 30) as usize; format!("{tag}{}", utf8_of_len(rng, n)) };
+        let realm_b = mk(rng, "B-"); let realm_c = mk(rng, "C-");
+        c.verif_set_auth(&cr.user, &cr.pass, &cr.realm, &cr.nonce);      // = the state a successful allocate leaves
+        // the history of the audit: same realm, realm B, new nonce in B, realm C — then random steps
+        let mut steps: Vec<(String, String)> = vec![(realm_a.clone(), mk(rng, "n1")), (realm_b.clone(), mk(rng, "n2")), (realm_b.clone(), mk(rng, "n3")), (realm_c.clone(), mk(rng, "n4"))];
+        for _ in 0..rng.below(4) { steps.push((rng.pick(&[realm_a.clone(), realm_b.clone(), realm_c.clone(), String::new()]).clone(), mk(rng, "r"))); }
+        if round % 5 == 0 { steps.rotate_left(1); }
+        let all_steps: Vec<(String, String)> = std::iter::once((cr.realm.clone(), cr.nonce.clone())).chain(steps.iter().cloned()).collect();
+        for (si, (realm, nonce)) in all_steps.into_iter().enumerate() {
+            if si > 0 { env.rt.block_on(c.verif_update_nonce(&realm, &nonce)); cr.realm = realm.clone(); cr.nonce = nonce.clone(); }
+            let step_class = if si == 0 { "after-allocate" } else if realm == realm_a { "after-challenge-same-realm" } else { "after-challenge-new-realm" };
+            if c.verif_auth_key() != Some(cr.key()) { run.fail(&format!("codec:turn:challenge-history:stored-key:{step_class}"), &format!("history step {si}"), ""); }
+            let peer = gen_addr(rng);
+            let ch = rng.range(0x4000, 0x7fff) as u16;
+            let built: Vec<(&str, Vec<u8>, [u8; 12], Option<SocketAddr>, u32)> = vec![
+                { let (b, tx) = env.rt.block_on(c.verif_create_permission_packet(peer)).unwrap(); ("perm", b, tx, Some(peer), 0) },
+                { let (b, tx) = env.rt.block_on(c.verif_create_channel_rebind_packet(peer, ch)).unwrap(); ("bind", b, tx, Some(peer), ch as u32) },
+                { let (b, tx) = env.rt.block_on(c.verif_create_refresh_packet()).unwrap(); ("refresh", b, tx, None, 600) },
+                { let (b, tx) = c.verif_create_destroy_packet().unwrap(); ("refresh", b, tx, None, 0) },
+            ];
+            for (kind, b, tx, p, n) in built {
+                let case = case_req(run, kind, &tx, Some(&cr), p, n, &[], &b);
+                if let Err(e) = verifies_under_own_realm(&b, &cr.pass) { run.fail(&format!("codec:turn:challenge-history:{kind}:{step_class}:message-integrity-not-under-realm-in-message"), &case, &e); }
+                let mut m = Message::new(); m.raw = b.clone(); let _ = m.decode();
+                if m.get(ATTR_REALM).ok().as_deref() != Some(cr.realm.as_bytes()) || m.get(ATTR_NONCE).ok().as_deref() != Some(cr.nonce.as_bytes()) {
+                    run.fail(&format!("codec:turn:challenge-history:{kind}:{step_class}:realm-or-nonce-not-the-challenged-one"), &case, ""); }
+            }
+            // authenticated Send indication over the wire
+            let dl = *rng.pick(&[0usize, 5, 100]);
+            let data = rng.bytes(dl);
+            env.rt.block_on(c.verif_send_indication(peer, &data)).unwrap();
+            if let Some(b) = env.sent() {
+                let tx: [u8; 12] = b[8..20].try_into().unwrap();
+                let case = case_req(run, "sendind", &tx, Some(&cr), Some(peer), 0, &data, &b);
+                if let Err(e) = verifies_under_own_realm(&b, &cr.pass) { run.fail(&format!("codec:turn:challenge-history:sendind:{step_class}:message-integrity-not-under-realm-in-message"), &case, &e); }
+            } else { run.count("udp_loopback_loss"); }
+            run.count(&format!("challenge_history_{step_class}"));
         }
     }
 }
@@ -233,6 +356,9 @@ fn allocate_dialogue(run: &mut Run, rng: &mut Rng, env: &Env) {
     let relayed = gen_addr(rng);
     let lifetime = *rng.pick(&[0u32, 1, 300, 600, 3600, u32::MAX]);
     let code = *rng.pick(&[401u16, 401, 438]);
+    // every other dialogue starts with a forged success response (foreign transaction id, bogus relayed address)
+    let forged_first = rng.chance(1, 2);
+    let bogus: SocketAddr = "192.0.2.66:6666".parse().unwrap();
     let client = env.client.clone();
     let (user, pass) = (cr.user.clone(), cr.pass.clone());
     let server = &env.server;
@@ -241,8 +367,15 @@ fn allocate_dialogue(run: &mut Run, rng: &mut Rng, env: &Env) {
         let srv = async {
             let mut reqs: Vec<Vec<u8>> = vec![];
             let mut buf = vec![0u8; 4096];
+            if forged_first {
+                if let Ok(Ok((n, _))) = tokio::time::timeout(Duration::from_secs(2), server.recv_from(&mut buf)).await {
+                    let mut tx: [u8; 12] = buf[8..20].try_into().unwrap(); tx[0] ^= 0x80; let _ = n;
+                    let forged = server_reply(tx, METHOD_ALLOCATE, CLASS_SUCCESS_RESPONSE, &[(ATTR_LIFETIME, 600u32.to_be_bytes().to_vec())], Some(bogus), None);
+                    let _ = server.send_to(&forged, client_addr).await;
+                }
+            }
             for step in 0..2 {
-                let Ok(Ok((n, _))) = tokio::time::timeout(Duration::from_secs(2), server.recv_from(&mut buf)).await else { break };
+                let Ok(Ok((n, _))) = tokio::time::timeout(Duration::from_millis(700), server.recv_from(&mut buf)).await else { break };
                 let req = buf[..n].to_vec();
                 let tx: [u8; 12] = req[8..20].try_into().unwrap();
                 let reply = if step == 0 {
@@ -258,6 +391,8 @@ fn allocate_dialogue(run: &mut Run, rng: &mut Rng, env: &Env) {
         };
         tokio::join!(client.verif_allocate(&user, &pass), srv)
     });
+    if forged_first { if let Ok((addr, _)) = &res { if *addr == bogus {
+        run.fail("codec:turn:allocate:response-with-foreign-transaction-id-honoured", "allocate-dialogue forged-first", &addr.to_string()); return; } } }
     if reqs.len() != 2 { run.count("allocate_dialogue_incomplete"); return; }
     let tx0: [u8; 12] = reqs[0][8..20].try_into().unwrap();
     let tx1: [u8; 12] = reqs[1][8..20].try_into().unwrap();
@@ -268,6 +403,7 @@ fn allocate_dialogue(run: &mut Run, rng: &mut Rng, env: &Env) {
     oracle_request(run, &c1, "allocate", &reqs[1], &tx1, METHOD_ALLOCATE, CLASS_REQUEST, Some(&cr), None,
         &[(ATTR_REQUESTED_TRANSPORT, vec![17, 0, 0, 0]), (ATTR_LIFETIME, 600u32.to_be_bytes().to_vec())]);
     match res {
+        Ok((addr, _)) if forged_first && addr == bogus => run.fail("codec:turn:allocate:response-with-foreign-transaction-id-honoured", &c1, &addr.to_string()),
         Ok((addr, lt)) => {
             if addr != relayed { run.fail(&format!("codec:turn:allocate:xor-relayed:{}", if relayed.is_ipv4() { "v4" } else { "v6" }), &c1, &format!("{addr} vs {relayed}")); }
             let want = if lifetime > 0 { lifetime } else { 600 };
